@@ -13,6 +13,15 @@ Graph  = the PRODUCERS of formulas:
          M  mixtures: mix_by_weight / mix_by_volume over components x quantities (calls, named calls
             and the string forms), depth 1.
          Every produced formula is also re-produced with a name (formula(f, name=...)).
+         N  awkward names: every name of 1..2 (3) characters over {a, blank, ', ", \\, a non-ASCII letter,
+            newline} given through every route a formula comes by a name (name= of formula() on a string / a
+            structure / a Formula, name= of the mixture calls, the .name attribute, n*named, named += g).
+         H  round-trip histories: event sequences over a few texts - parse(text), parse(text, name=), build
+            the formula that PRINTS as that text from atoms, customise the formula made last in place
+            (+=, .name, .density), n*last - each path in its own chain of forked interpreters that start
+            from one in which nothing was ever parsed; after every event ALL live formulas are judged
+            (a parsed formula nobody named must print as a formula and read back as itself, however the
+            caller customised an earlier formula parsed from the same text).
 Oracle = s = str(f): formula(s) must succeed (public table) and return the same nesting (modulo the
          grammar's own (X)1 == X), the identical atom objects and every count equal to f's count to
          six significant digits (exactly, when the count needs no more); repr(f) == "formula('%s')" % s;
@@ -34,7 +43,12 @@ META = dict(
           "structure with count and container types, atoms, name, requested name), merged across all producers "
           "and shards; non-trivial = anything but the empty formula and a bare count-1 element.  The named copy "
           "formula(f, name=...) of every silent unnamed state is judged too, but counted apart "
-          "(info.named_copies_*), not as a state"),
+          "(info.named_copies_*), not as a state.  N: names over an alphabet of characters that a quoting repr "
+          "would treat specially, through every naming route.  H: every event history of <= 4 events over "
+          "{parse, parse with name=, build from atoms} x texts and {+=, .name, .density, 2*f} on the formula made "
+          "last, starting from an interpreter that has parsed nothing; all live formulas are judged after every "
+          "event; a violating history has no successors; cause = the earlier events that are individually "
+          "necessary (re-run in fresh interpreters)"),
     bound=dict(
         quick=("P: C01 lexical graph <= 2 symbols over the 14 colliding symbols (all 6 separators, all decorations) "
                "and all 2744 adjacent triples; C01 structural graph <= 2 elements over {H,O,Co,D}, deviation <= 2, "
@@ -46,12 +60,16 @@ META = dict(
                "A: 15 bases (string, atom, dict, nested list/tuple, count-1 group, named), base + 2 operators, 19 "
                "multipliers, 6 wrapping counts, every base as operand.  M: 9 components, all ordered pairs x 81 "
                "quantity pairs x {weight, volume}, triples over 4 components x 27 quantity triples, single "
-               "component, named calls, wt% / vol% / mass-unit / layer strings over 7 component spellings"),
+               "component, named calls, wt% / vol% / mass-unit / layer strings over 7 component spellings.  "
+               "N: 56 names (length <= 2 over 7 characters) x 10 naming routes.  H: histories of <= 4 events over 3 "
+               "texts (H2O, CaCO3, 'CaCO3 6H2O' which prints as CaCO3(H2O)6 = CaCO3 += 6 H2O): 9 producers + 4 "
+               "updates, 21 420 histories"),
         thorough=("as quick, plus P: lexical triples also blank-separated and with one decoration (adjacent); count "
                   "chains deviation 3..5; C01 structural graph with 3 elements over {H,Co,D}; magnitude graph at "
                   "deviation 3 with 6 magnitudes; S: every atom of the table x counts {1, 2.5, 0.1234567}; "
                   "A: base + 3 operators, the third with 5 multipliers, 2 wrapping counts, 3 operands; "
-                  "M: triples over 6 components")),
+                  "M: triples over 6 components; N: 399 names (length <= 3); H: histories of <= 4 events over 5 texts "
+                  "(+ D2O, Fe[56]{3+}O[18]1.5): 15 producers + 4 updates, 108 600 histories")),
     assumptions=[
         "public table only: str() carries no table, so formulas over a private table are read back with other "
         "atom objects - the text does not say which table applies; excluded",
@@ -66,6 +84,13 @@ META = dict(
         "idempotence str(formula(str(f))) == str(f) is not required literally (the text does not ask for it): when "
         "the second print differs, the formula read back must round-trip in its own right",
         "producers that raise are not judged here (C01 / C02 / C11); they are counted under outcome producer-raised",
+        "names: the statement makes no exception for any character ('repr shows formula('<that string>')', 'a named "
+        "formula prints its name'), so quotes, backslash, non-ASCII and the newline are judged literally; the empty "
+        "name is no name",
+        "histories: a formula parsed without name= that nobody named afterwards is an unnamed formula (it must print "
+        "a string of the grammar) whatever its .name attribute says; n*named and named += g are judged by the .name "
+        "they have (copy semantics of the library); "
+        "the density is customised but never judged (C13 says nothing about it)",
         "boundary magnitudes added to the list of the design: 10, 1200000 (trailing zeros), 1.00001 (needs all six "
         "digits), 1.0000001 (prints as 1: the count==1 elision against %g)",
     ],
@@ -92,6 +117,10 @@ ATOMS = (("H", 0, 0), ("O", 0, 0), ("Co", 0, 0), ("H", 2, 0), ("H", 3, 0), ("H",
          ("H", 1, 1), ("H", 0, 1), ("O", 18, 0), ("Fe", 0, 2), ("Fe", 56, 3), ("O", 16, -2))
 PAIR_COUNTS = (1, 2, 0.5)
 NAME = "sample 1 (named)"
+#: awkward names: every string of 1..2 (3) characters over a plain letter, the blank, both quotes, the backslash,
+#: a non-ASCII letter and a control character (the statement says repr SHOWS formula('<str>') - it makes no
+#: exception for characters that Python's own repr would escape or that make it switch quotes)
+NAME_CHARS = ("a", " ", "'", '"', "\\", "\u00b5", "\n")
 WRAPS = (1, 2, 0.5, 1e-5, 1234567, 1.0000001)
 MULTS_LAST = (2, 1.0 / 3, 1e-5, 1234567, 1.0000001)      # thorough: multipliers of the third operator
 MIX_QS = (1, 2, 0.5, 1.0 / 3, 1e-3, 1e-5, 123456, 1e6, 1234567)
@@ -336,9 +365,33 @@ def diagnose(E, f, what):
     return sorted(causes)
 
 
-def judge(E, f, second=False, want_name=None):
+def char_class(ch):
+    return {"'": "apostrophe", '"': "double-quote", "\\": "backslash", " ": "blank"}.get(
+        ch, "control-character" if (ord(ch) < 32 or ord(ch) == 127) else "non-ascii" if ord(ch) > 127 else "plain")
+
+
+def repr_causes(f, name):
+    """Input class of a named formula whose repr is not formula('<name>'): the classes of characters of the
+    name that alone (as a one-character name of the same formula) already break it; ':named' if none does."""
+    out = set()
+    for ch in sorted(set(name)):
+        g = copy.copy(f)
+        g.name = ch
+        try:
+            ok = repr(g) == "formula('%s')" % str(g)
+        except Exception:
+            ok = False
+        if not ok:
+            out.add(":name-with-" + char_class(ch))
+    if any(c.endswith("plain") for c in out):
+        return [":named"]
+    return sorted(out) or [":named"]
+
+
+def judge(E, f, second=False, want_name=None, unnamed=False):
     """The property on one formula: list of (signature, expected, observed); [] = holds.
-    want_name: the name the producer was asked to give (else a formula is named iff .name is set)."""
+    want_name: the name the producer was asked to give (else a formula is named iff .name is set).
+    unnamed: nobody ever named this formula (histories), so it must print as a formula whatever .name says."""
     try:
         s = str(f)
         r = repr(f)
@@ -346,10 +399,11 @@ def judge(E, f, second=False, want_name=None):
         return [("printing-raises:" + type(e).__name__, "a string", "%s: %s" % (type(e).__name__, e))]
     if not isinstance(s, str):
         return [("str-is-not-a-string", "a string", repr(s))]
-    name = want_name or f.name
+    name = None if unnamed else (want_name or f.name)
     bad = []
     if r != "formula('%s')" % s:
-        bad.append(("repr-is-not-formula-of-str", "formula('%s')" % s, r))
+        for cause in (repr_causes(f, name) if name and s == name else [""]):
+            bad.append(("repr-is-not-formula-of-str" + cause, "formula('%s')" % s, r))
     if name:
         if s != name:
             bad.append(("named-formula-does-not-print-its-name", name, s))
@@ -387,10 +441,15 @@ Env.second_reported = 0
 def snippet(case):
     k = case["kind"]
     head = "import periodictable as pt\nfrom periodictable import formula, mix_by_weight, mix_by_volume\n"
+    kwname = ", name=%r" % case["name"] if case.get("name") else ""
     if k == "parse":
-        body = "f = formula(%r)\n" % case["s"]
+        body = "f = formula(%r%s)\n" % (case["s"], kwname)
     elif k == "list":
-        body = "f = formula(%s)\n" % pystruct(case["structure"])
+        body = "f = formula(%s%s)\n" % (pystruct(case["structure"]), kwname)
+    elif k == "namedop":
+        body = "f = formula(%s)\n%s\n" % (pystruct(NAMED_BASE), NAMED_OPS[case["op"]][0] % dict(n=repr(case["name"])))
+    elif k == "history":
+        return hist_code([tuple(ev) for ev in case["history"]])
     elif k == "dict":
         body = "f = formula({%s})\n" % ", ".join("%s: %r" % (pyatom(a), c) for a, c in case["items"])
     elif k == "rmul":
@@ -407,6 +466,9 @@ def snippet(case):
     if case.get("named"):
         body += "f = formula(f, name=%r)\n" % case["named"]
         return head + body + "print(str(f), repr(f))   # expected: the name, formula('<the name>')\n"
+    if case.get("name"):
+        return (head + body + "print(str(f) == %r, repr(f) == \"formula('\" + %r + \"')\")   # expected: True True\n"
+                % (case["name"], case["name"]))
     return (head + body + "s = str(f); print(repr(s), repr(f))\n"
             "g = formula(s)            # must not raise\n"
             "print(f.structure); print(g.structure)   # same nesting and atoms, counts equal to 6 digits\n")
@@ -415,10 +477,13 @@ def snippet(case):
 def produce(E, case):
     """Run the producer of a case: Formula (or raises)."""
     k = case["kind"]
+    kwname = dict(name=case["name"]) if case.get("name") else {}
     if k == "parse":
-        f = E.formula(case["s"])
+        f = E.formula(case["s"], **kwname)
     elif k == "list":
-        f = E.formula(from_json(E, case["structure"]))
+        f = E.formula(from_json(E, case["structure"]), **kwname)
+    elif k == "namedop":
+        f = NAMED_OPS[case["op"]][1](E, E.formula(from_json(E, NAMED_BASE)), case["name"])
     elif k == "dict":
         f = E.formula(dict((E.atom(a), c) for a, c in case["items"]))
     elif k == "rmul":
@@ -507,7 +572,10 @@ def run_case(E, acc, case):
     except Exception as e:
         acc.outcome("producer-raised:%s" % case["kind"])
         return None
-    return check(E, acc, f, case, want_name=case.get("name"))
+    want = case.get("name")
+    if case["kind"] == "namedop" and case["op"] in ("mul", "iadd"):
+        want = None          # n*named, named += g: judged as named only if the library keeps the name
+    return check(E, acc, f, case, want_name=want)
 
 
 def finish(E, acc):
@@ -855,6 +923,294 @@ def shard_mixtures(args):
     return finish(E, acc)
 
 
+# ------------------------------------------------------------------------------------ N: awkward names
+NAMED_BASE = [[2, ["H", 0, 0]], [1, ["O", 0, 0]]]
+
+
+def _op_setter(E, f, n):
+    f.name = n
+    return f
+
+
+def _op_iadd(E, f, n):
+    f.name = n
+    f += E.formula(E.atom(("Co", 0, 0)))
+    return f
+
+
+def _op_mul(E, f, n):
+    f.name = n
+    return 2.5 * f
+
+
+#: how a formula comes by its name, apart from the name= keyword of formula() and of the mixture calls
+NAMED_OPS = {
+    "setter": ("f.name = %(n)s", _op_setter),
+    "rename": ("f = formula(f, name=%(n)s)", lambda E, f, n: E.formula(f, name=n)),
+    "rename-named": ("f.name = 'other'; f = formula(f, name=%(n)s)",
+                     lambda E, f, n: E.formula(_op_setter(E, f, "other"), name=n)),
+    "mul": ("f.name = %(n)s; f = 2.5*f", _op_mul),
+    "iadd": ("f.name = %(n)s; f += formula(pt.Co)", _op_iadd),
+}
+
+
+def awkward_names(maxlen):
+    out = []
+    level = [""]
+    for _ in range(maxlen):
+        level = [x + c for x in level for c in NAME_CHARS]
+        out += level
+    return out
+
+
+def name_cases(maxlen):
+    for n in awkward_names(maxlen):
+        yield dict(kind="parse", s="H2O", name=n)
+        yield dict(kind="parse", s="Fe[56]{3+}O[18]1.5@5", name=n)
+        yield dict(kind="list", structure=NAMED_BASE, name=n)
+        yield dict(kind="mix", fn="w", parts=[["H2O", 9], ["NaCl", 1]], name=n)
+        yield dict(kind="mix", fn="v", parts=[["H2O", 1], ["D2O", 1]], name=n)
+        for op in sorted(NAMED_OPS):
+            yield dict(kind="namedop", op=op, name=n)
+
+
+def shard_names(args):
+    part, nparts, maxlen = args
+    E = env()
+    acc = Acc()
+    for i, case in enumerate(name_cases(maxlen)):
+        if i % nparts == part:
+            run_case(E, acc, case)
+            acc.count("awkward_name_cases")
+    if part == 0:
+        acc.info["awkward_names"] = len(awkward_names(maxlen))
+    return finish(E, acc)
+
+
+# ------------------------------------------------------------------------------------ H: round-trip histories
+# "str(f) parses back to the same formula" must hold whatever the program did before with formulas of the same
+# text: a formula produced by parsing is the caller's own object and may be customised in place (+=, name,
+# density) BEFORE the same text is parsed again - by the caller or by the round trip of another formula that
+# prints the same text.  A state is an event history over a few texts (printed strings of the producers);
+# after every event ALL live formulas are judged.  Every path runs in its own chain of forked interpreters,
+# starting from an interpreter that has never parsed anything.
+HIST_TEXTS = ("H2O", "CaCO3", "CaCO3 6H2O", "D2O", "Fe[56]{3+}O[18]1.5")     # quick: the first three
+_H, _O, _Ca, _C = ["H", 0, 0], ["O", 0, 0], ["Ca", 0, 0], ["C", 0, 0]
+HIST_BUILT = {        # printed text -> the same formula built from atoms (no parsing)
+    "H2O": [[2, _H], [1, _O]],
+    "CaCO3": [[1, _Ca], [1, _C], [3, _O]],
+    "CaCO3(H2O)6": [[1, _Ca], [1, _C], [3, _O], [6, [[2, _H], [1, _O]]]],
+    "D2O": [[2, ["H", 2, 0]], [1, _O]],
+    "Fe[56]{3+}O[18]1.5": [[1, ["Fe", 56, 3]], [1.5, ["O", 18, 0]]],
+}
+HIST_BUILT_ORDER = ("H2O", "CaCO3", "CaCO3(H2O)6", "D2O", "Fe[56]{3+}O[18]1.5")
+HIST_ADD = [[6, [[2, _H], [1, _O]]]]
+HIST_NAME = "water"
+HIST_UPDATES = [("iadd",), ("name",), ("density",), ("mul",)]
+
+
+def hist_producers(ntexts):
+    return ([("parse", t) for t in HIST_TEXTS[:ntexts]] + [("parse-named", t) for t in HIST_TEXTS[:ntexts]] +
+            [("build", t) for t in HIST_BUILT_ORDER[:ntexts]])
+
+
+HIST_PRODUCERS = hist_producers(len(HIST_TEXTS))
+
+
+AS_IS = "?"      # the library's copy semantics decide whether the formula has a name; judged as it is
+
+
+class HistState(object):
+    def __init__(self):
+        self.live = []       # [formula, name the caller gave it | None (nobody named it) | AS_IS]
+
+
+def hist_apply(E, st, ev):
+    k = ev[0]
+    if k == "parse":
+        st.live.append([E.formula(ev[1]), None])
+    elif k == "parse-named":
+        st.live.append([E.formula(ev[1], name=HIST_NAME), HIST_NAME])
+    elif k == "build":
+        st.live.append([E.formula(from_json(E, HIST_BUILT[ev[1]])), None])
+    elif k == "iadd":
+        rec = st.live[-1]
+        f = rec[0]
+        f += E.formula(from_json(E, HIST_ADD))
+        rec[0] = f
+        if rec[1] is not None:
+            rec[1] = AS_IS       # named += g: the text does not say whether the name stays
+    elif k == "name":
+        st.live[-1][0].name = HIST_NAME
+        st.live[-1][1] = HIST_NAME
+    elif k == "density":
+        st.live[-1][0].density = 2.5
+    elif k == "mul":
+        rec = st.live[-1]
+        st.live.append([2 * rec[0], None if rec[1] is None else AS_IS])     # n*named: likewise
+    else:
+        raise MachineryError("unknown history event %r" % (ev,))
+
+
+def hist_judge(E, st):
+    """All live formulas against the property; -> list of (signature, expected, observed) of the first that fails."""
+    for i, (f, want) in enumerate(st.live):
+        bad = judge(E, f, want_name=None if want == AS_IS else want, unnamed=want is None)
+        if bad:
+            which = "the formula made by the last event" if i == len(st.live) - 1 else "formula L[%d]" % i
+            return [(sig, exp, "%s: %s" % (which, obs)) for sig, exp, obs in bad]
+    return []
+
+
+def hist_code(hist):
+    lines = ["import periodictable as pt", "from periodictable import formula", "L = []"]
+    for ev in hist:
+        k = ev[0]
+        if k == "parse":
+            lines.append("f = formula(%r); L.append(f)" % ev[1])
+        elif k == "parse-named":
+            lines.append("f = formula(%r, name=%r); L.append(f)" % (ev[1], HIST_NAME))
+        elif k == "build":
+            lines.append("f = formula(%s); L.append(f)" % pystruct(HIST_BUILT[ev[1]]))
+        elif k == "iadd":
+            lines.append("f += formula(%s)" % pystruct(HIST_ADD))
+        elif k == "name":
+            lines.append("f.name = %r" % HIST_NAME)
+        elif k == "density":
+            lines.append("f.density = 2.5")
+        elif k == "mul":
+            lines.append("f = 2*f; L.append(f)")
+    lines += ["for x in L:", "    print(repr(str(x)), repr(x), x.structure)",
+              "    # a formula the program named prints that name; every other one prints a formula string that",
+              "    # parses back to the same structure:",
+              "    if str(x) != %r: print(formula(str(x)).structure)" % HIST_NAME]
+    return "\n".join(lines) + "\n"
+
+
+def hist_events(hist, ntexts):
+    return hist_producers(ntexts) + (list(HIST_UPDATES) if hist else [])
+
+
+def _hist_children(E, st, hist, depth, ntexts, only=None):
+    """Explore every extension of `hist` (already executed in this interpreter) in a forked child each.
+    -> (Acc, [(history, findings)])"""
+    from ..histmc import in_fork
+    acc, found = Acc(), []
+    for ev in hist_events(hist, ntexts):
+        if only is not None and ev != only:
+            continue
+        def node(ev=ev):
+            return _hist_visit(E, st, hist + (ev,), depth, ntexts)
+        sub, f2 = in_fork(node)
+        acc.merge(sub)
+        found += f2
+    return acc, found
+
+
+def _hist_visit(E, st, hist, depth, ntexts, only=None, silent=False):
+    """Execute the last event of `hist` here, judge, and explore the successors (only: just that one).
+    silent: this node is counted and reported by another shard."""
+    sub, found = Acc(), []
+    ev = hist[-1]
+    try:
+        hist_apply(E, st, ev)
+    except MachineryError:
+        raise
+    except Exception:
+        sub.outcome("producer-raised:history:" + ev[0])
+        return sub, found
+    bad = hist_judge(E, st)
+    if not silent:
+        sub.transitions += 1
+        sub.evaluations += len(st.live)
+        sub.count("history_states")
+        if len(hist) > 1:
+            sub.count("history_states_nontrivial")
+    if bad:
+        return sub, ([] if silent else [(hist, bad)])
+    if not silent:
+        sub.outcome("history:%s:all-live-formulas-round-trip" % ev[0])
+    if len(hist) < depth:
+        s2, f2 = _hist_children(E, st, hist, depth, ntexts, only)
+        sub.merge(s2)
+        found += f2
+    return sub, found
+
+
+def hist_linear(E, hist):
+    """The whole history in ONE fresh interpreter: index of the first failing event and its findings, or None."""
+    from ..histmc import in_fork
+
+    def work():
+        st = HistState()
+        for i, ev in enumerate(hist):
+            try:
+                hist_apply(E, st, ev)
+            except MachineryError:
+                raise
+            except Exception as e:
+                return (i, "raises", "%s: %s" % (type(e).__name__, e))
+            bad = hist_judge(E, st)
+            if bad:
+                return (i, bad)
+        return None
+    return in_fork(work)
+
+
+def hist_valid(hist):
+    return bool(hist) and hist[0] in HIST_PRODUCERS
+
+
+def hist_report(E, acc, hist, bad):
+    """Name the cause: the earlier events that are individually necessary for the same finding at the last event."""
+    sig0 = bad[0][0]
+    hist = list(hist)
+    progress = True
+    while progress:
+        progress = False
+        for j in range(len(hist) - 2, -1, -1):
+            trial = hist[:j] + hist[j + 1:]
+            if not hist_valid(trial):
+                continue
+            r = hist_linear(E, trial)
+            if r is not None and r[0] == len(trial) - 1 and r[1] != "raises" and r[1][0][0] == sig0:
+                hist, bad, progress = trial, r[1], True
+                break
+    before = sorted(set(e[0] for e in hist[:-1]))
+    sig = "history:%s:at-%s:%s" % (sig0, hist[-1][0], "after-" + "+".join(before) if before else "in-a-fresh-interpreter")
+    case = dict(kind="history", history=[list(e) for e in hist])
+    for s, exp, obs in bad[:1]:
+        acc.violation(sig, case, expected=exp, observed=obs, standalone=hist_code(hist))
+
+
+HIST_DEPTH = 4
+
+
+def hist_ntexts(quick):
+    return 3 if quick else 5
+
+
+def shard_history(args):
+    """All histories that start with two given events (the one-event history is counted by the shard of the
+    first possible second event).  This process never parses anything itself."""
+    from ..histmc import in_fork
+    first, second, depth, ntexts = args
+    first, second = tuple(first), tuple(second)
+    E = env()
+    acc = Acc()
+    silent = second != hist_events((first,), ntexts)[0]
+    sub, found = in_fork(lambda: _hist_visit(E, HistState(), (first,), depth, ntexts, only=second, silent=silent))
+    acc.merge(sub)
+    for hist, bad in found[:12]:
+        hist_report(E, acc, hist, bad)
+    if len(found) > 12:
+        acc.count("history_findings_not_minimised", len(found) - 12)
+    acc.info["max_history_length"] = depth
+    if silent is False:
+        acc.sample(dict(case=dict(kind="history", history=[list(first), list(second)]), depth=depth))
+    return acc
+
+
 # ------------------------------------------------------------------------------------ driver
 def _run_shard(item):
     fn, args = item
@@ -887,12 +1243,25 @@ def plan(quick):
     P += [(shard_positions, (p, 4)) for p in range(4)]
     # M
     P += [(shard_mixtures, (p, 8, not quick)) for p in range(8)]
+    # N
+    P += [(shard_names, (p, 2, 2 if quick else 3)) for p in range(2)]
     return P
+
+
+def plan_histories(quick):
+    n = hist_ntexts(quick)
+    return [(shard_history, (first, second, HIST_DEPTH, n)) for first in hist_producers(n)
+            for second in hist_events((first,), n)]
 
 
 def run(ctx):
     P = plan(ctx.quick)
-    env().formula("H2O")          # import the library and build the parser once, before forking
+    env()                         # import the library (nothing is parsed yet)
+    # H first: the histories start from an interpreter in which no text has ever been parsed
+    H = plan_histories(ctx.quick)
+    ctx.pmap(_run_shard, rotate(H, ctx.seed), "C13 histories")
+    ctx.log("histories done: %d" % ctx.acc.info.get("history_states", 0))
+    env().formula("H2O")          # build the parser once, before forking
     res = ctx.pmap(_run_shard, rotate(P, ctx.seed))
     acc = ctx.acc
     keys = {}
@@ -900,16 +1269,26 @@ def run(ctx):
         keys.update(getattr(r, "keys", {}))
     # a state = a distinct printer input, merged over all producers and shards
     acc.info["round_trips_executed"] = acc.evaluations
-    acc.states = len(keys)
-    acc.nontrivial = sum(1 for v in keys.values() if v)
+    acc.states = len(keys) + acc.info.get("history_states", 0)
+    acc.nontrivial = sum(1 for v in keys.values() if v) + acc.info.get("history_states_nontrivial", 0)
     acc.traces = acc.transitions         # every produced formula is judged (fresh or by its identical twin)
     acc.evaluations += acc.transitions   # + the producer executions
-    acc.info["shards"] = len(P)
+    acc.info["shards"] = len(P) + len(H)
     acc.info.setdefault("merged_arrivals", 0)
 
 
 def replay(ctx, case, signature=None):
     E = env()
+    if case.get("kind") == "history":
+        hist = [tuple(ev) for ev in case["history"]]
+        if not hist_valid(hist):
+            raise MachineryError("bad history %r" % (hist,))
+        r = hist_linear(E, hist)
+        if r is not None and r[1] == "raises":
+            raise MachineryError("event %d of the replay history raises on this tree: %s" % (r[0], r[2]))
+        if r is not None:
+            hist_report(E, ctx.acc, hist[:r[0] + 1], r[1])
+        return
     res = run_case(E, ctx.acc, case if not case.get("named") else dict(case, named=None))
     if res is None:
         raise MachineryError("the producer of the replay case raises on this tree")
